@@ -615,3 +615,25 @@ func checkFallbackDeadline(c *Ctx, prop string) {
 	}
 	c.Floor("deadline arming in the TCP fallback", nd, 1)
 }
+
+// checkProbeSuspectClaim: the suspect claim a failed probe submits is about the
+// record that was probed: it carries that record's incarnation (the one
+// observed when the probe started), its name, and the local node as accuser.
+// Stamping it with a later incarnation would let an old observation override a
+// newer refutation.
+func checkProbeSuspectClaim(c *Ctx, prop string) {
+	pn := c.MustFunc("Memberlist.probeNode")
+	x := c.flow(pn, map[string]string{})
+	n := 0
+	for _, e := range x.Effects {
+		if e.Class != "CALL:Memberlist.suspectNode" {
+			continue
+		}
+		n++
+		base := strings.TrimPrefix(e.Detail["arg0"], "&")
+		inc, node, from := e.Store[base+".Incarnation"].S, e.Store[base+".Node"].S, e.Store[base+".From"].S
+		c.Check(prop+"/probe/suspect-claim", "the probe's suspect claim carries the probed record's incarnation and name and is signed by the local node", e.Pos,
+			norm(inc) == "node.Incarnation" && norm(node) == "node.Node.Name" && from == "m.config.Name", fmt.Sprintf("{%s %s %s}", norm(inc), norm(node), from))
+	}
+	c.Floor("suspect calls in the probe", n, 1)
+}
